@@ -30,8 +30,10 @@ def run(chk):
     # the growing family bounds the stream by budget x body length (checked at budget 1024 directly on apply_macros)
     srcs = [("selfrep", "DEFINE a AS a END DEFINE\nx := 1; a"), ("grow", "DEFINE g AS x := 1 ; g END DEFINE\ng"),
             ("mutual", "DEFINE PRIO 3 p AS q END DEFINE DEFINE PRIO 7 q AS p ; x := 1 END DEFINE\nx := 2; p"),
-            ("finite", "DEFINE t AS x := 1 END DEFINE\nt ; t ; t")]
-    recs, rc, err = run_th(th, ["compile"], [{"i": i, "files": {"m": s}, "main": "m"} for i, (_, s) in enumerate(srcs)], timeout=600)
+            ("finite", "DEFINE t AS x := 1 END DEFINE\nt ; t ; t"),
+            # inserts its slot twice and matches its own output: without a bound on the stream it doubles with every pass
+            ("doubling", "DEFINE w <V> AS w RUN f WITH $0 , $0 END END DEFINE\nw a")]
+    recs, rc, err = run_th(th, ["compile"], [{"i": i, "files": {"m": s}, "main": "m", "watch": 300} for i, (_, s) in enumerate(srcs)], timeout=900)
     got = {r["i"]: r for r in recs if "ok" in r}
     for i, (nm, s) in enumerate(srcs):
         r = got.get(i)
